@@ -7,7 +7,7 @@ RUNTIME_TB = ["R-SUM's specification table in lexlint/rules_runtime.py (the cont
 GEN_ALL = {"P1", "P2", "P3", "P4", "P5", "P6", "P7", "P8", "P9", "R-SAVED", "R-BSEARCH", "R-NAMES",
            "R-WHO", "R-PANIC", "R-CTOR", "R-SUGAR"}
 FLOORS = {"ops": 700, "munch": 240, "rulesets": 70, "rctx": 190, "eoi": 40, "classes": 330, "builtins": 110,
-          "prec": 265, "actions": 7, "modules": 10, "illformed": 110, "mix": 150}
+          "prec": 265, "actions": 7, "modules": 10, "illformed": 114, "mix": 150}
 
 
 def c01(ctx, env):
@@ -32,6 +32,7 @@ def c03(ctx, env):
 
 
 def c04(ctx, env):
+    env.src(ctx, ["R-SCOPE"])
     env.replay_gen(ctx, {"P5", "P8", "P9", "R-BSEARCH", "TV", "TV-CTX"})
     env.witnesses(ctx, ["rctx", "modules", "mix"], {"TV", "TV-CTX", "COMPILE", "P5", "P8", "P9", "R-BSEARCH"}, FLOORS)
 
@@ -127,12 +128,12 @@ def check_generated_statics(ctx, env):
 
 def c16(ctx, env):
     env.src(ctx, ["R-PARSE", "R-SCOPE", "R-THOMPSON", "R-CLASS"])
-    env.replay_gen(ctx, {"TV"})
-    env.witnesses(ctx, ["prec", "illformed"], {"TV", "COMPILE", "REJECT"}, FLOORS)
+    env.replay_gen(ctx, {"TV", "TV-CTX"})
+    env.witnesses(ctx, ["prec", "illformed", "rctx"], {"TV", "TV-CTX", "COMPILE", "REJECT"}, FLOORS)
 
 
 def c17(ctx, env):
-    env.src(ctx, ["R-CHK"])
+    env.src(ctx, ["R-CHK", "R-SCOPE"])
     env.witnesses(ctx, ["illformed"], {"REJECT", "COMPILE"}, FLOORS)
 
 
